@@ -34,7 +34,10 @@ var payloadKinds = []struct {
 	{"trailing-blanks", func(r *rand.Rand, n int) string {
 		return fmt.Sprintf(" #%d trailing", n) + fw.Pick(r, []string{" ", "  ", "\t", " \t "})
 	}},
-	{"non-ascii", func(r *rand.Rand, n int) string { return fmt.Sprintf(" #%d ünïcödé ✓ 日本", n) }},
+	{"non-ascii", func(r *rand.Rand, n int) string {
+		// the last character matters: its final UTF-8 byte may look like a blank to byte-wise code (à = C3 A0, Å = C3 85, х = D1 85)
+		return fmt.Sprintf(" #%d ünïcödé ✓ ", n) + fw.Pick(r, []string{"日本", "voilà", "Å", "в цех", "é", "😀", "città", "\u00a0x", "x\u0085y", "ẅ", "꠰"})
+	}},
 	{"empty", func(r *rand.Rand, n int) string { return "" }},
 	{"spaces-only", func(r *rand.Rand, n int) string { return fw.Pick(r, []string{" ", "   "}) }},
 	{"long", func(r *rand.Rand, n int) string { return fmt.Sprintf(" #%d ", n) + strings.Repeat("long ", 60) }},
